@@ -237,6 +237,9 @@ def scenario_table(ctx):
     for name, callee in (("kw-names-positional-out-of-order", "REC"), ("cn-kw-names-positional-out-of-order", "CN")):
         rw, node, res, hi = rewrite(ctx, callee, args=(), kws=(("P1", "V1"), ("P0", "V0")))
         out[name] = (node, res)
+    # ... and behind a keyword-only argument: f(a0, K0=v0, P1=v1)
+    rw, node, res, hi = rewrite(ctx, "REC", args=("A0",), kws=(("K0", "V0"), ("P1", "V1")))
+    out["kw-names-positional-behind-keyword-only"] = (node, res)
     # bare references inside a method
     for name, ident in (("method-name-recurse", "REC"), ("method-name-self", "SELFNAME")):
         rw, hi, self_obj = _setup(ctx, True, {})
@@ -416,6 +419,14 @@ def law_call_shapes(ctx):
         "recurse(p1=v1, p0=v0) (positional parameters by keyword, not in positional order) is left to the entry point",
         _is_marker(res, "generic_visit", node) or not filed_by_name(res, ("P0", "P1")),
         "the rewritten call files positional parameters under their names: no method is filed that way",
+    )
+    node, res = t["kw-names-positional-behind-keyword-only"]
+    ctx.ob(
+        f"{m.key}:bail-out:keyword-names-positional-behind-keyword-only",
+        loc,
+        "recurse(a0, k0=v0, p1=v1) (a positional parameter by keyword, written after a keyword-only argument) is left to the entry point",
+        _is_marker(res, "generic_visit", node) or not filed_by_name(res, ("P1",)),
+        "the rewritten call files the positional parameter under its name, as if it were keyword-only: no method is filed that way, so recurse ends in 'No method' where the same call of the function works",
     )
     node, res = t["cn-kw-names-positional-out-of-order"]
     cn_ooo = filed_by_name(res, ("P0", "P1"))
